@@ -283,7 +283,7 @@ func ruleWritePath(c *Ctx, r *Report) {
 			apps++
 			// under ShouldEncrypt the Encrypt call must be executed on every path to the append
 			w2 := &Walk{Fn: pf, Assume: assumeAll(atomAssume{mLoad("internal/flight.Packet", "ShouldEncrypt"), vBool(true)}),
-				Visit: func(in ssa.Instruction, _ map[*ssa.Phi]Val) bool { return len(enc) != 1 || in != enc[0] }}
+				Visit: func(in ssa.Instruction, _ Env) bool { return len(enc) != 1 || in != enc[0] }}
 			w2.FromEntry()
 			good := len(enc) == 1 && !w2.Reached[call]
 			if !good {
